@@ -17,6 +17,8 @@ def run(chk):
     mc = "Revocation.mc.thorough.cfg" if thorough else "Revocation.mc.quick.cfg"
     r = vplib.tlc_mc("Revocation", mc, timeout=3000 if thorough else 900, heap="24g" if thorough else None)
     chk.add_tlc(r, "Revocation", mc, "C09 invariants + action properties, VIEW without the output variable")
+    if thorough:
+        vplib.coverage_check(chk, "Revocation", "Revocation.mc.quick.cfg", timeout=2400)
     # 2. generate distinct transitions
     gen = "Revocation.gen.thorough.cfg" if thorough else "Revocation.gen.quick.cfg"
     g = vplib.tlc("RevocationGen", gen, workers=1, timeout=1500)
